@@ -221,6 +221,10 @@ pub(super) fn complex_borrow_check(
                     // that are parked. Let's see if the cloning allows us to make progress on
                     // some of those nodes.
                     if unblocked_any_node {
+                        // Start the next cloning round from a clean slate, otherwise
+                        // we'd keep bouncing between `Park` and `Clone` forever when
+                        // what is left can't be resolved by cloning.
+                        unblocked_any_node = false;
                         strategy_on_block = StrategyOnBlock::Park;
                     } else {
                         strategy_on_block = StrategyOnBlock::Error;
